@@ -12,6 +12,7 @@ import (
 	"errors"
 	"fmt"
 	"log/slog"
+	"net"
 	"net/netip"
 	"net/url"
 	"strings"
@@ -81,6 +82,9 @@ func init() {
 type universe struct {
 	profs []*profSpec
 	devs  []*devSpec
+
+	// asked are the questions asked so far (for repeats).
+	asked []*request
 
 	// visible is the number of devices that existed before the request under
 	// judgement was served.
@@ -339,11 +343,23 @@ func (up *upstream) ServeDNS(ctx context.Context, rw dnsserver.ResponseWriter, r
 
 		return rw.WriteMsg(ctx, req, resp)
 	}
-	if req.Question[0].Qtype == dns.TypeA {
+	switch req.Question[0].Qtype {
+	case dns.TypeA:
 		resp.Answer = append(resp.Answer, &dns.A{
 			Hdr: dns.RR_Header{Name: req.Question[0].Name, Rrtype: dns.TypeA, Class: dns.ClassINET, Ttl: 300},
 			A:   []byte{93, 184, 216, 34},
 		})
+	case dns.TypeAAAA:
+		resp.Answer = append(resp.Answer, &dns.AAAA{
+			Hdr:  dns.RR_Header{Name: req.Question[0].Name, Rrtype: dns.TypeAAAA, Class: dns.ClassINET, Ttl: 300},
+			AAAA: net.ParseIP("2001:db8::34"),
+		})
+	case dns.TypeHTTPS:
+		resp.Answer = append(resp.Answer, &dns.HTTPS{SVCB: dns.SVCB{
+			Hdr:      dns.RR_Header{Name: req.Question[0].Name, Rrtype: dns.TypeHTTPS, Class: dns.ClassINET, Ttl: 300},
+			Priority: 1, Target: ".",
+			Value: []dns.SVCBKeyValue{&dns.SVCBAlpn{Alpn: []string{"h2"}}, &dns.SVCBIPv4Hint{Hint: []net.IP{{93, 184, 216, 34}}}},
+		}})
 	}
 
 	return rw.WriteMsg(ctx, req, resp)
@@ -640,6 +656,7 @@ func run(s *kernel.Sim, prop, cfg string) {
 		},
 	}
 
+	qlogFails := false
 	w, err := world.New(&world.Config{
 		Cache:         &dnssvc.CacheConfig{Type: dnssvc.CacheTypeECS, ECSCount: 100, NoECSCount: 100},
 		Upstream:      &upstream{sn: sn},
@@ -659,6 +676,13 @@ func run(s *kernel.Sim, prop, cfg string) {
 		QueryLog: &agdtest.QueryLog{OnWrite: func(_ context.Context, e *querylog.Entry) error {
 			c := *e
 			sn.qlog = append(sn.qlog, &c)
+			if qlogFails {
+				// The entry was handed over; the writer reports a failure
+				// (full disk).  The client must still be answered.
+				s.Fault("querylog-write-error")
+
+				return errors.New("sim querylog: no space left on device")
+			}
 
 			return nil
 		}},
@@ -704,6 +728,7 @@ func run(s *kernel.Sim, prop, cfg string) {
 		}
 
 		*sn = seen{upDev: map[string]string{}}
+		qlogFails = prop == "C15" && t.Chance(1, 10, "querylog-write-error")
 		u.visible = len(u.devs)
 		out, serr := serve(w, r, uint16(100+i))
 		who, why := u.identify(r)
@@ -824,7 +849,7 @@ func genRequest(t *kernel.Tape, u *universe, servers map[string]*agd.Server, kin
 	r.srvKind = kernel.Pick(t, kinds, "server")
 	r.srv = servers[r.srvKind]
 	r.client = netip.MustParseAddr(kernel.Pick(t, clientAddrs, "client"))
-	r.qtype = kernel.Pick(t, []uint16{dns.TypeA, dns.TypeA, dns.TypeAAAA, dns.TypeTXT}, "qtype")
+	r.qtype = kernel.Pick(t, []uint16{dns.TypeA, dns.TypeA, dns.TypeAAAA, dns.TypeTXT, dns.TypeHTTPS}, "qtype")
 
 	// Names: unique per request, with a behaviour prefix or an access-rule
 	// suffix.
@@ -938,8 +963,16 @@ func genRequest(t *kernel.Tape, u *universe, servers map[string]*agd.Server, kin
 		}
 	}
 
-	_ = prop
-	_ = u
+	if prop == "C15" {
+		// Repeated questions: the answer may come from the response cache,
+		// which must not change what is logged and billed.
+		if len(u.asked) > 0 && t.Chance(1, 4, "repeat-question") {
+			prev := u.asked[t.Choose(len(u.asked), "which-question")]
+			r.name, r.qtype, r.behaviour = prev.name, prev.qtype, prev.behaviour
+		} else if !strings.Contains(r.name, "names.test") {
+			u.asked = append(u.asked, r)
+		}
+	}
 
 	return r
 }
